@@ -13,10 +13,10 @@ import (
 
 // Env carries the alphabet and language helpers.
 type Env struct {
-	A   *relang.Alphabet
-	all *relang.DFA
-	ws  []rune
-	low map[int][]int // class -> classes of its ToLower pre-image (nil: identity)
+	A        *relang.Alphabet
+	all      *relang.DFA
+	ws       []rune
+	low      map[int][]int // class -> classes of its ToLower pre-image (nil: identity)
 	lowExact bool
 }
 
